@@ -811,7 +811,10 @@ class Evaluator:
             return args[0] if args else Other()
         if name == "enumerate" or name == "zip" or name == "reversed" or name == "sorted":
             return args[0] if args else Other()
-        if name.startswith("_validate") or name in ("warn", "print", "isinstance", "ValueError"):
+        if name in ("isinstance", "is_tensor", "callable"):
+            d_ = self.decide(c, env)  # flag = isinstance(x, list): a flag whose value the configuration fixes
+            return Other(d_) if d_ is not None else Other()
+        if name.startswith("_validate") or name in ("warn", "print", "ValueError"):
             return Other()
         # another view of the family: evaluate it inline
         fv = env.get(c.func.id) if isinstance(c.func, ast.Name) else None
